@@ -82,6 +82,16 @@ func nativeReplayRaw(rep *ReplayFile) string {
 		put(n, c)
 	}
 	put("zz_vh_replay_test.go", preludeTest(rep.PkgName))
+	if wg := rep.Model["_written_globals"]; wg != "" {
+		// the executor saw writes to these package-level variables: watch them natively
+		var sb strings.Builder
+		sb.WriteString("package " + rep.PkgName + "\n\nfunc init() {\n\tvhExtraWatch = func() {\n")
+		for _, n := range strings.Split(wg, ",") {
+			sb.WriteString("\t\tvhWatch(&" + n + ")\n")
+		}
+		sb.WriteString("\t}\n}\n")
+		put("zz_vh_watchglobals.go", sb.String())
+	}
 	ovb, _ := json.Marshal(map[string]interface{}{"Replace": replace})
 	ovPath := filepath.Join(tmp, "overlay.json")
 	os.WriteFile(ovPath, ovb, 0o644)
